@@ -29,6 +29,11 @@ fn dist_names() -> Vec<Vec<u8>> {
         b"x.tgz".to_vec(),
         b"dir/x.tgz".to_vec(),
         // a leading "./" is part of the spelling (same file as without it), "../" is not
+        // spellings with doubled / dotted / trailing separators are kept as written
+        b"dir//f.tgz".to_vec(),
+        b"dir/./g.tgz".to_vec(),
+        b"h.tgz/".to_vec(),
+        b"a//b///c.tgz".to_vec(),
         b"./x.tgz".to_vec(),
         b"./sub/dir/x.tgz".to_vec(),
         b"./dotted-1.0.tgz".to_vec(),
